@@ -131,6 +131,7 @@ pub fn run_job(
     prop: &str,
     job: &Job,
     part: (usize, usize),
+    claim_region: Option<usize>,
     deadline: Option<Instant>,
     only: Option<Vec<Dev>>,
     known: &KnownFindings,
@@ -161,6 +162,7 @@ pub fn run_job(
         job.step_cap,
         part,
         job.id.bytes().fold(0u64, |h, b| h.wrapping_mul(31).wrapping_add(b as u64)),
+        claim_region,
         deadline,
         only,
         wrapped,
